@@ -219,6 +219,26 @@ func (c *Ctx) Check(eval func() *Failure) bool {
 	return false
 }
 
+// CheckTimed is Check for cases that may not terminate: eval runs in its own goroutine; if it has not
+// returned after d, onTimeout() describes the failure (the goroutine is leaked and keeps spinning, so the
+// failure is not re-evaluated five times).
+func (c *Ctx) CheckTimed(d time.Duration, eval func() *Failure, onTimeout func() *Failure) bool {
+	ch := make(chan *Failure, 1)
+	go func() { ch <- eval() }()
+	select {
+	case f := <-ch:
+		if f == nil {
+			atomic.AddInt64(&c.evals, 1)
+			return true
+		}
+		return c.Check(eval)
+	case <-time.After(d):
+		atomic.AddInt64(&c.evals, 1)
+		c.Fail(onTimeout())
+		return false
+	}
+}
+
 // try runs f and reports a panic as a string.
 func try(f func()) (msg string, panicked bool) {
 	defer func() {
